@@ -330,3 +330,37 @@ Proof.
     + discriminate.
     + intros x H1 H2. rewrite store_out by lia. apply Hm2o; assumption.
 Qed.
+
+Theorem wctomb_s_spec c utf8 retvalp dest dmax wc m bs :
+  retvalp <> 0 -> dest <> 0 -> 1 <= dmax <= rmax_wstr c -> wc_enc utf8 wc = Some bs -> (1 <= length bs)%nat ->
+  Z.of_nat (length bs) < dmax -> Z.of_nat (length bs) < 4294967296 -> Forall (fun b => 0 <= b < 256) bs ->
+  (retvalp + 4 <= dest \/ dest + dmax <= retvalp) ->
+  wp (wctomb_s c utf8 retvalp dest dmax wc BOS_UNKNOWN) m (fun r m' =>
+     r = EOK /\ load m' 4 retvalp = Z.of_nat (length bs) /\
+     (forall i, (i < length bs)%nat -> m' (dest + Z.of_nat i) = nth i bs 0) /\
+     (null_slack c = true -> forall x, dest + Z.of_nat (length bs) <= x < dest + dmax -> m' x = 0) /\
+     (forall x, ~ (dest <= x < dest + dmax) -> ~ (retvalp <= x < retvalp + 4) -> m' x = m x)).
+Proof.
+  intros Hr Hd Hm He Hne Hfit Hbig Hb Hdisj. unfold wctomb_s, chk_c_dest.
+  replace (retvalp =? 0) with false by lia. replace (dest =? 0) with false by lia.
+  replace (dmax =? 0) with false by lia. rewrite Z.eqb_refl. replace (rmax_wstr c <? dmax) with false by lia.
+  assert (Hlen : wcx_len utf8 false dest wc = Z.of_nat (length bs)). { unfold wcx_len. replace (dest =? 0) with false by lia. rewrite He. reflexivity. }
+  assert (Hby : wcx_bytes utf8 wc = bs). { unfold wcx_bytes. rewrite He. reflexivity. }
+  rewrite Hlen, Hby. cbn [wp]. replace (0 <? Z.of_nat (length bs)) with true by lia. replace (Z.of_nat (length bs) <? dmax) with true by lia.
+  cbn [andb]. replace (dest =? 0) with false by lia.
+  apply store_bytes_wp. set (m1 := store m 4 retvalp (Z.of_nat (length bs))). set (m2 := put_bytes m1 dest bs).
+  assert (Hm2r : load m2 4 retvalp = Z.of_nat (length bs)).
+  { rewrite (load_ext m2 m1). { subst m1. rewrite load_store_same by lia. apply Z.mod_small. change (256 ^ 4) with 4294967296. lia. }
+    intros x Hx. subst m2. apply put_bytes_out. lia. }
+  assert (Hm2b : forall i, (i < length bs)%nat -> m2 (dest + Z.of_nat i) = nth i bs 0).
+  { intros i Hi. subst m2. rewrite put_bytes_in by exact Hi. apply Z.mod_small. rewrite Forall_forall in Hb. apply Hb. apply nth_In. exact Hi. }
+  assert (Hm2o : forall x, ~ (dest <= x < dest + dmax) -> ~ (retvalp <= x < retvalp + 4) -> m2 x = m x).
+  { intros x H1 H2. subst m2. rewrite put_bytes_out by lia. subst m1. apply store_out. lia. }
+  destruct (null_slack c) eqn:Ens; cbn [wp].
+  - split; [reflexivity|]. split; [|split; [|split]].
+    + rewrite (load_ext _ m2); [exact Hm2r|]. intros x Hx. apply fill_out. lia.
+    + intros i Hi. rewrite fill_out by lia. apply Hm2b. exact Hi.
+    + intros _ x Hx. apply fill_in. lia.
+    + intros x H1 H2. rewrite fill_out by lia. apply Hm2o; assumption.
+  - split; [reflexivity|]. split; [exact Hm2r|]. split; [exact Hm2b|]. split; [discriminate|exact Hm2o].
+Qed.
